@@ -3,11 +3,17 @@
    k delivers the complete answer.  C20_loop_detected: B actions without a result raise InfiniteLoopDetected
    (whatever the data interface: the machine is generic in it, cyclic heaps included).  C20_no_rescan: after
    the end nothing more is attempted.
-   UNDISCHARGED: the explicit bound (attempts <= 2 x examinations) is not proved; the correspondence compares
-   the complete trace-event stream with the specification's on every case. *)
+   C20_attempts_bound: the attempts reported through tracing over the whole life of an iterator are at most
+   2 x exams - 1, where `exams` (proofs/SpecWork.v) counts the (node, remaining path) evaluations the declarative
+   definition of the path requires: one per application of a step to a context, one per node a recursive
+   step visits, plus what the filters require (pw).  C20_attempts_bound_spec: the same about the
+   specification stream, also when an exception cuts it short.  C20_has_filters_bounded: for the has family
+   the filters' own requirement is `hwork` (the examinations of their nested searches), so the bound is closed
+   for every path built from the library's own predicates and user callables.
+   (The cyclic half -- F2/F3 in known_findings.json -- is outside the JSON-tree model.) *)
 From Coq Require Import List ZArith String Bool PArith.
-From TP Require Import Json PyPrim Machine Spec.
-From TP.proofs Require Import RefineBase Refine NextLayer Iterate WfRun Query SpecLemmas Top PropLemmas.
+From TP Require Import Json PyPrim Machine Api Spec SpecHas.
+From TP.proofs Require Import RefineBase Refine NextLayer Iterate WfRun Query SpecLemmas Top PropLemmas SpecWork.
 Import ListNotations.
 
 Theorem C20_terminates :
@@ -32,3 +38,30 @@ Theorem C20_no_rescan :
     pc z = PDone -> next jshape P ev B src vp tr z = (ORaise EStop, z, []).
 Proof. exact stays_exhausted. Qed.
 Print Assumptions C20_no_rescan.
+
+Theorem C20_attempts_bound_spec :
+  forall (P : Type) (sev : P -> jctx -> res json * list sevent) (pw : P -> jctx -> nat) (rest : list (vertex P)),
+    pw_ok P sev pw rest ->
+    forall i pm c, (ntr (fst (sem P sev i rest pm c)) + 1 <= 2 * exams P sev pw rest c)%nat.
+Proof. exact attempts_bound. Qed.
+Print Assumptions C20_attempts_bound_spec.
+
+Theorem C20_attempts_bound :
+  forall (P : Type) (sev : P -> jctx -> res json * list sevent) (src : @source json) (vp : list (vertex P))
+         (tr : @tracecfg json) (pw : P -> jctx -> nat) d,
+    pw_ok P sev pw vp -> complete P sev src vp tr d ->
+    (ntr (map abs_ev (all_events d)) + 1 <= 2 * exams P sev pw vp (abs (root_match src)))%nat.
+Proof. exact attempts_bound_run. Qed.
+Print Assumptions C20_attempts_bound.
+
+Theorem C20_has_filters_bounded :
+  forall n (h : jpred) (c : jctx), (ntr (snd (seval_h n h c)) <= 2 * hwork n h c)%nat.
+Proof. exact hwork_ok. Qed.
+Print Assumptions C20_has_filters_bounded.
+
+(* non-vacuity: [1, {"a": 2}] under $..a : 10 attempts, 7 examinations required *)
+Example C20_bound_example :
+  let d := JList 1 [JInt 1; JDict 2 [("a"%string, JInt 2)]] in
+  let p : list (vertex Empty_set) := [VRec; VKey "a"%string] in
+  ntr (fst (sem Empty_set sev0 0 p None (root_ctx d))) = 10%nat /\ exams Empty_set sev0 (fun _ _ => 0%nat) p (root_ctx d) = 7%nat.
+Proof. vm_compute. split; reflexivity. Qed.
